@@ -164,6 +164,55 @@ func buildHistPool(seed uint64, big bool) *histPool {
 		r := NewRng(seed, "C08/file", i)
 		hp.files = append(hp.files, genModelFile(r, MFOpts{InDomain: true, MaxMsgs: 6, MaxFields: 8}))
 	}
+	// sibling Files: a parent whose slice of one message kind is heterogeneous (the
+	// last message sets a subset of the fields of the first), and a sibling that
+	// holds one message of that kind with exactly the last message's field set -
+	// anything Encode remembers per (message kind, set of valid fields) and then
+	// changes while encoding the parent shows when the sibling is encoded afterwards
+	for i := 0; i < 4; i++ {
+		r := NewRng(seed, "C08/sibling", i)
+		ft := supportedFileTypes[r.Intn(len(supportedFileTypes))]
+		hs := hostsOf(ft)
+		var kinds []uint16
+		for mn, h := range hs {
+			if h.Slice && mn != gRecord && mn != gLap && mn != gSession && mn != gSegmentLap && mn != gEvent && mn != 0 {
+				n := 0
+				for _, pf := range prof.byMesg[mn] {
+					if pf.Kind == kindNative && !pf.Array && baseOf(pf.Base).Integer {
+						n++
+					}
+				}
+				if n >= 3 {
+					kinds = append(kinds, mn)
+				}
+			}
+		}
+		if len(kinds) == 0 {
+			continue
+		}
+		sortU16(kinds)
+		k := kinds[r.Intn(len(kinds))]
+		var cand []*PField
+		for _, pf := range prof.byMesg[k] {
+			if pf.Kind == kindNative && !pf.Array && baseOf(pf.Base).Integer {
+				cand = append(cand, pf)
+			}
+		}
+		perm := r.Perm(len(cand))
+		a1, a2, x := cand[perm[0]], cand[perm[1]], cand[perm[2]]
+		mk := func(fs ...*PField) MMsg {
+			m := MMsg{Global: k, Fields: map[int]string{}}
+			for _, pf := range fs {
+				if v, ok := genCanonValue(r, pf, true); ok {
+					m.Fields[pf.SIndex] = v
+				}
+			}
+			return m
+		}
+		parent := &ModelFile{Type: ft, HdrCRC: i%2 == 0, Proto: 0x20, FileId: map[int]string{}, Msgs: []MMsg{mk(a1, a2, x), mk(a1, a2)}}
+		sibling := &ModelFile{Type: ft, HdrCRC: i%2 == 0, Proto: 0x20, FileId: map[int]string{}, Msgs: []MMsg{mk(a1, a2)}}
+		hp.files = append(hp.files, parent, sibling)
+	}
 	// Files with arrays longer than the profile length (Encode truncates; whatever it
 	// does to get there must stay private to the call)
 	for i := 0; i < 3; i++ {
